@@ -6,6 +6,10 @@ open Irismod Irismod.Proofs.TokenMonitor
 #print axioms accepted_mint
 #print axioms accepted_burn
 #print axioms accepted_transferOwner
+#print axioms accepted_legacyMint
+#print axioms accepted_legacyBurn
+#print axioms acceptedFails_of_norm
+#print axioms C10.c10_accepted_core
 #print axioms C10.c10_monitor_sound
 #print axioms C10.swapFails_nil
 #print axioms C10.swapFails_nil_all
